@@ -11,6 +11,7 @@ import (
 
 	"github.com/pokt-network/pocket-core/codec"
 	cdctypes "github.com/pokt-network/pocket-core/codec/types"
+	"github.com/pokt-network/pocket-core/store/iavl"
 	"github.com/pokt-network/pocket-core/store/rootmulti"
 	"github.com/pokt-network/pocket-core/store/types"
 	dbm "github.com/tendermint/tm-db"
@@ -66,8 +67,47 @@ func OpenAt(db dbm.DB, spec Spec, cacheSize int64, ver int64) (*MS, error) {
 
 func (m *MS) KV(name string) types.KVStore { return m.Store.GetKVStore(m.Keys[name]) }
 
-// DumpKV renders the whole content of a KVStore as "k:v,k:v" in iteration (ascending) order.
-func DumpKV(kv types.KVStore) string {
+// DumpKV renders the whole content of a KVStore as "k:v,k:v" in iteration (ascending) order.  For an IAVL
+// store the tree is first walked synchronously (hook DumpKVForVerif) under recover(): a missing node then
+// yields "PANIC:<msg>" instead of killing the process from the iterator's goroutine; afterwards the real
+// iterator is used and must agree with the walk ("ITERDIFF" otherwise).
+func DumpKV(kv types.KVStore) (out string) {
+	if st, ok := kv.(*iavl.Store); ok {
+		var walked string
+		failed := false
+		func() {
+			defer func() {
+				if e := recover(); e != nil {
+					failed = true
+					msg := strings.ReplaceAll(fmt.Sprint(e), " ", "_")
+					if len(msg) > 60 {
+						msg = msg[:60]
+					}
+					walked = "PANIC:" + msg
+				}
+			}()
+			var parts []string
+			for _, p := range st.DumpKVForVerif() {
+				parts = append(parts, gen.Hex(p[0])+":"+gen.Hex(p[1]))
+			}
+			walked = "-"
+			if len(parts) > 0 {
+				walked = strings.Join(parts, ",")
+			}
+		}()
+		if failed {
+			return walked
+		}
+		defer func() {
+			if out != walked {
+				out = "ITERDIFF:" + out
+			}
+		}()
+	}
+	return dumpIter(kv)
+}
+
+func dumpIter(kv types.KVStore) string {
 	it, err := kv.Iterator(nil, nil)
 	if err != nil {
 		return "ERR"
